@@ -65,6 +65,10 @@ func runEmit(prop string) int {
 		return 2
 	}
 	r := NewRun(prop, "emit", prog)
+	if prop == "C07" {
+		checkSamplerInventory(r)
+		fmt.Println("C07: wrote sampler inventory")
+	}
 	if len(spec.Scope.Include) > 0 {
 		if err := r.EmitGuardRef(prop+"_guards.json", spec.Scope); err != nil {
 			fmt.Fprintln(os.Stderr, err)
